@@ -1409,10 +1409,12 @@ func (k *Kad) EachPeerRev(f model.EachPeerFunc, filter topology.Filter) error {
 func (k *Kad) Reachable(addr boson.Address, status p2p.ReachabilityStatus) {
 	k.collector.Record(addr, im.PeerReachability(status))
 	k.logger.Tracef("kademlia: reachability of peer %s is %s", addr.String(), status.String())
+	// a peer that stops being publicly reachable leaves the set the depth is
+	// computed over just as one that becomes reachable enters it
+	k.depthMu.Lock()
+	k.depth = recalcDepth(k.connectedPeers, k.radius, k.peerFilter)
+	k.depthMu.Unlock()
 	if status == p2p.ReachabilityStatusPublic {
-		k.depthMu.Lock()
-		k.depth = recalcDepth(k.connectedPeers, k.radius, k.peerFilter)
-		k.depthMu.Unlock()
 		k.notifyManageLoop()
 	}
 }
